@@ -542,3 +542,38 @@ func intrinsicNames() []string {
 }
 
 var _ = ssa.Function{}
+
+func init() {
+	// math/bits: table-driven in the stdlib; encoded as ite-chains instead
+	lenN := func(w uint8) intrinsic {
+		return func(p *Path, _ *frame, a []Value) Value {
+			x := p.asTerm(a[0], "bits.Len")
+			c := p.ctx
+			r := c.BV(0, 64)
+			_, hi := urange(x, 0)
+			for i := uint8(0); i < w && i < x.W && (hi>>i) != 0; i++ {
+				bit := c.Eq(c.Extract(x, i, 1), c.BV(1, 1))
+				r = c.Ite(bit, c.BV(uint64(i)+1, 64), r)
+			}
+			return r
+		}
+	}
+	reg("math/bits.Len64", lenN(64))
+	reg("math/bits.Len32", lenN(32))
+	reg("math/bits.Len16", lenN(16))
+	reg("math/bits.Len8", lenN(8))
+	reg("math/bits.Len", lenN(64))
+	reg("math/bits.LeadingZeros64", func(p *Path, f *frame, a []Value) Value {
+		return p.ctx.Sub(p.ctx.BV(64, 64), lenN(64)(p, f, a).(*Term))
+	})
+	reg("math/bits.TrailingZeros64", func(p *Path, _ *frame, a []Value) Value {
+		x := p.asTerm(a[0], "bits.TrailingZeros64")
+		c := p.ctx
+		r := c.BV(64, 64)
+		for i := 63; i >= 0; i-- {
+			bit := c.Eq(c.Extract(x, uint8(i), 1), c.BV(1, 1))
+			r = c.Ite(bit, c.BV(uint64(i), 64), r)
+		}
+		return r
+	})
+}
